@@ -7,9 +7,9 @@
 (* the right type - not the fixed values of MC_Config), runs the real      *)
 (* from_file / Opt parsing / patch_with_options / verify on each and        *)
 (* records one ndjson event per pair:                                      *)
-(*   {"ev":"case","file":{..},"cli":{..},                                  *)
+(*   {"ev":"case","prog":"teosd"|"teos-cli","file":{..},"cli":{..},        *)
 (*    "obs":{"patched":{..Config after patch_with_options..},              *)
-(*           "verdict":"running"|"refused",                                *)
+(*           "verdict":"running"|"refused" (teos-cli: "ready"),            *)
 (*           "final":{..Config after verify..}}}                           *)
 (* Every event is judged with the monitors of Config.tla - the operators   *)
 (* TLC checks as invariants of the specification - applied to the observed *)
@@ -22,30 +22,39 @@ EXTENDS Config, TLC, Json, IOUtils
 Rec == ndJsonDeserialize(IOEnv.TRACE)
 
 VARIABLES l, tags
-vars == <<file, cli, stage, conf, l, tags>>
+vars == <<prog, file, cli, stage, conf, l, tags>>
 
 Ev == Rec[l]
 
 Init ==
-    /\ InitWith([o \in {} |-> TRUE], [o \in {} |-> TRUE])
+    /\ InitWith("teosd", [o \in {} |-> TRUE], [o \in {} |-> TRUE])
     /\ l = 1
     /\ tags = {}
 
-ObsTags(f, c, o) ==
+ObsTags(p, f, c, o) ==
     LET st == o.verdict
-    IN  {<<l, "C20", "patched:" \o x>> : x \in BadSettings(f, c, "patched", o.patched)}
-        \cup (IF BadPort(f, c, "patched", o.patched) THEN {<<l, "C20", "patched:btc_rpc_port">>} ELSE {})
-        \cup (IF BadVerdict(f, c, st)
-              THEN {<<l, "C20", IF st = "running" THEN "accepted-unsafe" ELSE "refused-valid">>} ELSE {})
-        \cup {<<l, "C20", "final:" \o x>> : x \in BadSettings(f, c, st, o.final)}
-        \cup (IF BadPort(f, c, st, o.final) THEN {<<l, "C20", "final:btc_rpc_port">>} ELSE {})
+    IN  IF p = "teosd"
+        THEN {<<l, "C20", "patched:" \o x>> : x \in BadSettings(p, f, c, "patched", o.patched)}
+             \cup (IF BadPort(f, c, "patched", o.patched) THEN {<<l, "C20", "patched:btc_rpc_port">>} ELSE {})
+             \cup (IF BadVerdict(f, c, st)
+                   THEN {<<l, "C20", IF st = "running" THEN "accepted-unsafe" ELSE "refused-valid">>} ELSE {})
+             \cup {<<l, "C20", "final:" \o x>> : x \in BadSettings(p, f, c, st, o.final)}
+             \cup (IF BadPort(f, c, st, o.final) THEN {<<l, "C20", "final:btc_rpc_port">>} ELSE {})
+        ELSE {<<l, "C20", "patched:" \o x>> : x \in BadSettings(p, f, c, "ready", o.patched)}
+
+WellFormedEvent(e) ==
+    /\ e.prog \in Programs
+    /\ WellFormed(e.prog, e.file, e.cli)
+    /\ e.obs.verdict \in (IF e.prog = "teosd" THEN {"running", "refused"} ELSE {"ready"})
+    /\ ReadOpts(e.prog) \subseteq DOMAIN e.obs.patched
+    /\ ReadOpts(e.prog) \subseteq DOMAIN e.obs.final
 
 StepCase ==
     /\ Ev.ev = "case"
-    /\ IF WellFormed(Ev.file, Ev.cli) /\ Ev.obs.verdict \in {"running", "refused"}
-            /\ AllOpts \subseteq DOMAIN Ev.obs.patched /\ AllOpts \subseteq DOMAIN Ev.obs.final
-       THEN tags' = tags \cup ObsTags(Ev.file, Ev.cli, Ev.obs)
+    /\ IF WellFormedEvent(Ev)
+       THEN tags' = tags \cup ObsTags(Ev.prog, Ev.file, Ev.cli, Ev.obs)
        ELSE tags' = tags \cup {<<l, "HARNESS", "malformed event">>}
+    /\ prog' = Ev.prog
     /\ file' = Ev.file
     /\ cli' = Ev.cli
     /\ stage' = Ev.obs.verdict
@@ -55,12 +64,12 @@ StepCase ==
 StepAbort ==
     /\ Ev.ev = "abort"
     /\ tags' = tags \cup {<<l, "C20", "abort:" \o Ev.what>>}
-    /\ UNCHANGED <<file, cli, stage, conf>>
+    /\ UNCHANGED <<prog, file, cli, stage, conf>>
 
 StepEnd ==
     /\ Ev.ev = "end"
     /\ PrintT(<<"TRACE-END", l, ToJson(tags)>>)
-    /\ UNCHANGED <<file, cli, stage, conf, tags>>
+    /\ UNCHANGED <<prog, file, cli, stage, conf, tags>>
 
 Next ==
     /\ l <= Len(Rec)
